@@ -397,13 +397,17 @@ var (
 		{"2.23.140.1.3.1", gen.OIDPolEVCS}, {"2.23.140.1.4.2", gen.OIDPolEVCS}, {gen.OIDPolEVCS, gen.OIDPolCS},
 		{"2.23.140.1.2.4", gen.OIDPolDV}, {"2.23.140.1.2", gen.OIDPolOV}, {gen.OIDPolIV, "2.23.140.1.2.9"}, {"2.23.140.1.1.1", gen.OIDPolEV}, {"1.3.6.1.4.1.99999.2", "2.23.140.1.2.1.1", gen.OIDPolDV},
 		{"2.23.140.1.5.1.4", "2.23.140.1.5.1.1"}, {"2.23.140.1.5.5.1", "2.23.140.1.5.2.2"}, {"2.23.140.1.5.1", "2.23.140.1.5.4.3"}, {"2.23.140.1.5.0.0", "1.3.6.1.4.1.99999.2", "2.23.140.1.5.3.1"}, {"2.23.140.1.5.1.1.1", "2.23.140.1.5.1.2"},
-		{gen.OIDPolAny, gen.OIDPolCS}, {gen.OIDPolAny, gen.OIDPolDV}, {gen.OIDPolAny, "2.23.140.1.5.2.1"}}
+		{gen.OIDPolAny, gen.OIDPolCS}, {gen.OIDPolAny, gen.OIDPolDV}, {gen.OIDPolAny, "2.23.140.1.5.2.1"},
+		// policies of TWO documents in one certificate, in both orders (a cross-purpose CA): in scope of each of them
+		{"2.23.140.1.5.1.1", gen.OIDPolOV}, {gen.OIDPolOV, "2.23.140.1.5.1.1"}, {gen.OIDPolCS, gen.OIDPolEV}, {gen.OIDPolEV, gen.OIDPolCS}, {gen.OIDPolEVCS, "2.23.140.1.5.3.2", gen.OIDPolDV}, {"2.23.140.1.4.2", "2.23.140.1.5.2.3", gen.OIDPolIV}}
 	latticeSANs = []string{"none", "email", "email-empty", "smtputf8", "smtputf8-empty", "dns", "email+dns", "upn-othername",
 		// the e-mail indication BEHIND entries that are none: other otherNames, other name kinds, empty ones
 		"upn+smtputf8", "smtputf8+upn", "upn+upn+smtputf8", "dns+uri+dir+email", "email-empty+email", "unknown-othername+dns+smtputf8"}
 )
 
-func latticeSize() int { return 128 * len(latticePolicies) * len(latticeSANs) }
+// x 2 templates: a subscriber certificate and a CA certificate (scope is a matter of EKU, policies and SAN, whoever the
+// subject is)
+func latticeSize() int { return 128 * len(latticePolicies) * len(latticeSANs) * 2 }
 
 func latticeCert(k int) (*gen.Spec, scopeFacts, string) {
 	ek := k % 128
@@ -411,8 +415,13 @@ func latticeCert(k int) (*gen.Spec, scopeFacts, string) {
 	pol := latticePolicies[k%len(latticePolicies)]
 	k /= len(latticePolicies)
 	san := latticeSANs[k%len(latticeSANs)]
+	k /= len(latticeSANs)
 	f := scopeFacts{ekus: map[string]bool{}, policies: map[string]bool{}, fromBuild: true}
 	spec := gen.TLSLeaf(gen.D(2024, 3, 1), "www.example.com")
+	tmpl := "subscriber"
+	if k%2 == 1 {
+		spec, tmpl = gen.SubCA(gen.D(2024, 3, 1)), "CA"
+	}
 	spec.RemoveExt(gen.OIDExtEKU)
 	spec.RemoveExt(gen.OIDExtPol)
 	spec.RemoveExt(gen.OIDExtSAN)
@@ -477,7 +486,7 @@ func latticeCert(k int) (*gen.Spec, scopeFacts, string) {
 	if len(gns) > 0 {
 		spec.Exts = append(spec.Exts, gen.ExtSAN(false, gns...))
 	}
-	return spec, f, fmt.Sprintf("EKUs %v, policies %v, SAN %s", ekus, pol, san)
+	return spec, f, fmt.Sprintf("%s certificate, EKUs %v, policies %v, SAN %s", tmpl, ekus, pol, san)
 }
 
 func c04CfgFor(rng *rand.Rand) string {
